@@ -29,6 +29,7 @@ const DOCS: &[&str] = &[
     "   \n",
     "a:\r\n  - 1\r\n  - 2\r\n",
     "tab:\t\"x\ty\"\n",
+    "--- {true : !!{float \"1\", \"c\" : 1.5}\n",
 ];
 
 fn opts() -> serde_saphyr::Options {
@@ -109,13 +110,13 @@ pub fn run(ctx: &mut Ctx) {
 
     // ---- K2: RingReader scripts (ASCII data so that snapshots need no UTF-8 trimming)
     for round in 0..(if quick { 150 } else { 1500 }) {
-        let len = if round % 10 == 0 { 5000 + rng.below(3000) } else { rng.below(300) };
+        let len = if round % 10 == 0 { 5000 + rng.below(if round % 20 == 0 { 12000 } else { 3000 }) } else { rng.below(300) };
         let data: Vec<u8> = (0..len).map(|i| if i % 17 == 16 { b'\n' } else { b'a' + (i % 23) as u8 }).collect();
         // inner chunking
         let mut cuts = Vec::new();
         let mut p = 0;
         while p < len {
-            p += 1 + rng.below(if round % 10 == 0 { 2000 } else { 40 });
+            p += 1 + rng.below(if round % 10 == 0 { if round % 20 == 0 { 9000 } else { 2000 } } else { 40 });
             cuts.push(p);
         }
         let mut steps = scripted::chunks_at(&data, &cuts);
@@ -126,7 +127,7 @@ pub fn run(ctx: &mut Ctx) {
         let nops = 2 + rng.below(12);
         let mut ops: Vec<Option<usize>> = Vec::new();
         for _ in 0..nops {
-            if rng.chance(1, 3) { ops.push(None) } else { ops.push(Some(1 + rng.below(if round % 10 == 0 { 3000 } else { 64 }))) }
+            if rng.chance(1, 3) { ops.push(None) } else { ops.push(Some(1 + rng.below(if round % 10 == 0 { if round % 20 == 0 { 9000 } else { 3000 } } else { 64 }))) }
         }
         let (out, snaps, err) = serde_saphyr::__verif::ring_reader_script(Scripted::new(steps.clone()), &ops);
         let ops_term = coq::list(&ops.iter().map(|o| match o { Some(n) => format!("OpRead {n}%nat"), None => "OpRecent".into() }).collect::<Vec<_>>(), "rop");
@@ -176,7 +177,19 @@ pub fn run(ctx: &mut Ctx) {
             for (name, r) in results {
                 ctx.direct_evaluations += 1;
                 if r != base {
-                    let class = if bom && name.starts_with("from_reader") || bom && name.contains("from_reader") { "bom-reader" } else if bom { "bom-not-ignored" } else { "entry-points-differ" };
+                    // the parser's two input back-ends scan a tag that runs into a flow indicator (`!!{float`)
+                    // differently and stop at different places (recorded finding F32)
+                    let both_scan_errors = matches!((&r, &base), (Out::Err(a, ..), Out::Err(b, ..)) if a == "ExternalMessage" && b == "ExternalMessage");
+                    let tag_into_indicator = {
+                        let b = text.as_bytes();
+                        (0..b.len()).any(|i| b[i] == b'!' && {
+                            let mut j = i + 1;
+                            while j < b.len() && (b[j] == b'!' || b[j].is_ascii_alphanumeric()) { j += 1; }
+                            j < b.len() && matches!(b[j], b'{' | b'}' | b'[' | b']' | b',')
+                        })
+                    };
+                    let class = if both_scan_errors && tag_into_indicator && name.contains("reader") { "F32:tag-into-flow-indicator-scan-error-differs" }
+                        else if bom && name.starts_with("from_reader") || bom && name.contains("from_reader") { "bom-reader" } else if bom { "bom-not-ignored" } else { "entry-points-differ" };
                     ctx.fail(class, format!("{name} on {text:?} gives {r:?}, from_str on the text without BOM gives {base:?}"), replay.clone());
                 }
             }
